@@ -114,7 +114,7 @@ def rtimer_extra(prop):
 
 META["C03"] = {
     "title": "Sources and single-input operators compute their documented sequence",
-    "rule": "cases = (operator chain AST, input script). Enumerated: every single-input operator x every parameter in 0..n+1 / predicate family x every script over {0,1,2} up to length n (quick 3, thorough 6) x terminal {none,complete,error} x sources {Subject, create (sync and stashed-handle), from_iter}; every basic source alone and under every operator; plus seeded random chains of depth 2..5 with post-terminal events. Long scripts (counter long_script_cases): chains of 1-2 operators with parameters up to 12 over scripts of up to 40 items from an alphabet of 12 values (operators that remember what they have seen or keep the last n items). One long chain in ten is pairwise + distinct / distinct_until_changed: the harness item type hashes a pair by its first component only (Hash coarser than Eq, which is legal), so comparing hashes instead of values is observable. Large parameters (counter large_parameter_cases): take / skip / take_last / skip_last / element_at / buffer_with_count with counts 1024..5000 over from_iter of 1024, 1025 and 3000 items. A hot source is shared: in half of the hot-source cases (a function of the script; counter hot_cases_behind_a_closed_pipeline_on_the_same_source) another pipeline was registered on the same subject first and is already over - unsubscribed at once, or a take(1) that finishes by itself - when the events arrive; the pipeline under test is owed the same sequence. A case is non-trivial when the reference model's expected output contains an item, or terminates although the input did not, or ends with an error; distinct = distinct hash of (AST, script).",
+    "rule": "cases = (operator chain AST, input script). Enumerated: every single-input operator x every parameter in 0..n+1 / predicate family x every script over {0,1,2} up to length n (quick 3, thorough 6) x terminal {none,complete,error} x sources {Subject, create (sync and stashed-handle), from_iter}; every basic source alone and under every operator; plus seeded random chains of depth 2..5 with post-terminal events. Long scripts (counter long_script_cases): chains of 1-2 operators with parameters up to 12 over scripts of up to 40 items from an alphabet of 12 values (operators that remember what they have seen or keep the last n items). One long chain in ten is pairwise + distinct / distinct_until_changed: the harness item type hashes a pair by its first component only (Hash coarser than Eq, which is legal), so comparing hashes instead of values is observable. Large parameters (counter large_parameter_cases): take / skip / take_last / skip_last / element_at / buffer_with_count with counts 1024..5000 over from_iter of 1024, 1025 and 3000 items. Callback operators and operators whose item type the AST cannot carry run in the typed battery over a hot subject for 5 inputs x {no terminal, complete, error} (counter callback_operator_cases): on_complete (its callback once, before the downstream completion), on_error (callback once with the error, which ends there: no terminal downstream), timestamp (values untouched, instants ordered and inside the run), collect_into (the given collection extended by the items, on completion only). A hot source is shared: in half of the hot-source cases (a function of the script; counter hot_cases_behind_a_closed_pipeline_on_the_same_source) another pipeline was registered on the same subject first and is already over - unsubscribed at once, or a take(1) that finishes by itself - when the events arrive; the pipeline under test is owed the same sequence. A case is non-trivial when the reference model's expected output contains an item, or terminates although the input did not, or ends with an error; distinct = distinct hash of (AST, script).",
     "assumptions": COMMON_ASSUME + [
         "reference list semantics are written from the doc comments in src/observable.rs; where they are silent (take(0) on an unterminated input) both behaviours are accepted",
         "buffer_with_count(0) and float `average` are exercised only in the typed static battery",
@@ -123,7 +123,7 @@ META["C03"] = {
     "level_text": "Exploration: every enumerated (operator, parameter, script, source) case and every sampled random chain is executed against the real operators and compared item-by-item with a reference model; no claim beyond the cases counted in the evidence.",
     "level_note": "Trusted: the reference model (harness/src/model.rs), the recording probe, rustc. The model's relaxations are listed in DESIGN.md §5 C03.",
     "design_ref": "DESIGN.md §5 C03",
-    "require": {"quick": {"operators_covered": 45, "long_script_cases": 40000, "hot_cases_behind_a_closed_pipeline_on_the_same_source": 30000}, "thorough": {"operators_covered": 45, "long_script_cases": 2000000, "hot_cases_behind_a_closed_pipeline_on_the_same_source": 30000}},
+    "require": {"quick": {"operators_covered": 50, "callback_operator_cases": 15, "long_script_cases": 40000, "hot_cases_behind_a_closed_pipeline_on_the_same_source": 30000}, "thorough": {"operators_covered": 45, "long_script_cases": 2000000, "hot_cases_behind_a_closed_pipeline_on_the_same_source": 30000}},
 }
 
 META["C04"] = {
